@@ -10,8 +10,8 @@ K_CONTEXT = [
     {'crate': 'p3-circuit', 'harness': 'c19_set_witness_contract', 'profile': 'release'},
 ]
 PROPS = {
-    'C02': {'units': ['opt', 'run19'], 'kani': K_ANALYSIS + [{'crate': 'p3-circuit', 'harness': 'c02_allocator_monotone'}], 'exclude': r'H_dup_out_unmentioned'},
-    'C03': {'units': ['opt'], 'kani': K_ANALYSIS},
+    'C02': {'units': ['opt', 'fuse', 'run19'], 'kani': K_ANALYSIS + [{'crate': 'p3-circuit', 'harness': 'c02_allocator_monotone'}], 'exclude': r'H_dup_out_unmentioned'},
+    'C03': {'units': ['opt', 'fuse'], 'kani': K_ANALYSIS},
     'C19': {'units': ['run19'], 'kani': K_CONTEXT},
     'C20': {'units': ['gad', 'fri'], 'kani': [], 'only': {'fri': r'evaluate_polynomial|circuit_exp_by_constant|lemma_'}},
     'C07': {'units': ['fri', 'shape'], 'kani': [], 'only': {'shape': r'verify_fri_circuit'}, 'exclude': r'possible (bit shift|arithmetic)'},
@@ -45,8 +45,10 @@ META = {
                 'theorem_dedup_no_relation_dropped turns that into: ANY assignment satisfying every kept op satisfies every input op read through the rewrite '
                 '(no reference to the honest runner). Proved under the named hypothesis H (duplicate out slot unmentioned), whose single call-site obligation '
                 'fails on the unchanged tree and is the recorded finding C03-alias; every other obligation is discharged.',
-        'note': 'Kernel: Deduplicator::{new,detect_duplicate,run}, AluKey::{new,with_acc}, WitnessId::resolve, Op::apply_witness_rewrite. MulAddFusion is NOT under '
-                'contract yet. Trusted base as C02; non-primitive rows denote an uninterpreted relation of the values on their slots.',
+        'note': 'Under contract: Deduplicator::{new,detect_duplicate,run}, AluKey::{new,with_acc}, WitnessId::resolve, Op::apply_witness_rewrite, and of MulAddFusion the analysis and candidate test: '
+                'def_idx, is_const, uses, is_backwards, insert_def, track_backwards_op, scan_use_counts (= number of relation reads incl. Horner accumulators), scan_defs (last-definer / constant-sticky / '
+                'backwards invariants), try_fuse (a returned candidate is `fusable`: plain product read only by that plain sum, mentioned by no other relation — two hypotheses were needed before the fixes F4/F5). '
+                'NOT under contract: identify_candidates, filter_valid, apply (how the validated candidates are spliced into the list). Trusted base as C02; non-primitive rows denote an uninterpreted relation.',
     },
     'C19': {
         'technique': 'Verus contracts on extracted real runner functions + Kani loop-free harnesses inside the real crate under both build profiles',
